@@ -15,15 +15,19 @@ open SfntV SfntV.Otl
 
 /-! ### encInfo -/
 
+/-- one iteration of `for gid, i := range table { rev[i] = gid }` (an index outside `0..len-1`
+is a Go index panic) -/
+def revStep (acc : Outcome (List Nat)) (e : Nat × Int) : Outcome (List Nat) :=
+  match acc with
+  | .ok rev =>
+    if e.2 < (0 : Int) ∨ e.2 ≥ Int.ofNat rev.length then .panic "index out of range"
+    else .ok (rev.set e.2.toNat e.1)
+  | o => o
+
 /-- `rev := make([]glyph.ID, len(table)); for gid, i := range table { rev[i] = gid }`
-(entries in iteration order; an index outside `0..len-1` is a Go index panic). -/
+(entries in iteration order). -/
 def revOf (m : List (Nat × Int)) : Outcome (List Nat) :=
-  m.foldl (fun (acc : Outcome (List Nat)) (e : Nat × Int) =>
-    match acc with
-    | .ok rev =>
-      if e.2 < (0 : Int) ∨ e.2 ≥ Int.ofNat rev.length then .panic "index out of range"
-      else .ok (rev.set e.2.toNat e.1)
-    | o => o) (.ok (List.replicate m.length 0))
+  m.foldl revStep (.ok (List.replicate m.length 0))
 
 /-- `for i := 1; i < len(rev); i++ { if rev[i-1] >= rev[i] { panic } }` -/
 def increasing : List Nat → Bool
